@@ -39,9 +39,11 @@ Proof.
     + (* TArith *) by_consumes c Hwa Hq.
     + (* TBasic *) by_consumes c Hwa Hq.
     + (* TIsNull *) cbn [quiet is_some negb andb] in Hq. cbn [render strip_all].
-      rewrite (quiet_render t (set_wa c false) eq_refl Hq). reflexivity.
+      rewrite opc_strip, (quiet_render t (opc SIsNull t (set_wa c false)) (wa_opc_setwa _ _ _) Hq).
+      destruct (render (opc SIsNull t (set_wa c false)) (strip_all t)); [|reflexivity]. cbn [bind]. rewrite opnd_strip. reflexivity.
     + (* TNotNull *) cbn [quiet is_some negb andb] in Hq. cbn [render strip_all].
-      rewrite (quiet_render t (set_wa c false) eq_refl Hq). reflexivity.
+      rewrite opc_strip, (quiet_render t (opc SNotNull t (set_wa c false)) (wa_opc_setwa _ _ _) Hq).
+      destruct (render (opc SNotNull t (set_wa c false)) (strip_all t)); [|reflexivity]. cbn [bind]. rewrite opnd_strip. reflexivity.
     + (* TCase *) by_consumes c Hwa Hq.
     + (* TFunc *) by_consumes c Hwa Hq.
 Qed.
